@@ -4,6 +4,7 @@ import (
 	"encoding/json"
 	"fmt"
 	"testing"
+	"time"
 
 	"github.com/basecomplextech/baselibrary/alloc/bytequeue"
 	"github.com/basecomplextech/baselibrary/async"
@@ -24,6 +25,9 @@ type WinChan struct {
 	S2C          []int `json:"s2c"`
 	CloseByCli   bool  `json:"close_by_client"`
 	ClosePayload int   `json:"close_payload"`
+	// SendUs: the senders of a side ([client, server]) give every Send a timeout of this many microseconds
+	// and repeat a Send that ended by it (it has sent nothing); 0: no deadline
+	SendUs [2]int `json:"send_us,omitempty"`
 }
 
 type WinPhase struct {
@@ -111,6 +115,11 @@ func (windowScn) Generate(g *simrt.Rng, tier string) any {
 		}
 		if g.Bool(0.6) {
 			c.ClosePayload = genWinSizes(g, 1, w, false)[0]
+		}
+		for side := 0; side < 2; side++ {
+			if g.Bool(0.15) {
+				c.SendUs[side] = simrt.Pick(g, 1, 30, 1000, 20000)
+			}
 		}
 		p.Channels = append(p.Channels, c)
 	}
@@ -368,6 +377,27 @@ func (r *winRun) evalSettled() {
 	}
 }
 
+// sendRetry runs a Send under a timeout of its own and repeats it while it ends by that timeout alone.
+func (r *winRun) sendRetry(us int, f func(ctx async.Context) status.Status) status.Status {
+	if us == 0 {
+		return f(r.bg)
+	}
+	for {
+		own := async.NextTimeoutContext(r.bg, time.Duration(us)*time.Microsecond)
+		st := f(own)
+		expired := own.Done()
+		own.Free()
+		if !st.OK() && expired && !r.bg.Done() && st.Code == status.CodeTimeout {
+			r.probes["sends_repeated_after_own_deadline"]++
+			if us < 200_000 {
+				us = us*2 + 1
+			}
+			continue
+		}
+		return st
+	}
+}
+
 // send performs one monitored Send.
 func (r *winRun) send(i, dir, k, size int, closing bool, f func([]byte) status.Status) bool {
 	d := r.d[i][dir]
@@ -450,7 +480,7 @@ func (r *winRun) client(i int, conn mpx.Conn) {
 	var g group
 	g.goTask(fmt.Sprintf("ch%d-csend", i), func() {
 		for k, s := range c.C2S {
-			r.send(i, 0, k, s, false, func(b []byte) status.Status { return ch.Send(r.bg, b) })
+			r.send(i, 0, k, s, false, func(b []byte) status.Status { return r.sendRetry(c.SendUs[0], func(ctx async.Context) status.Status { return ch.Send(ctx, b) }) })
 		}
 	})
 	if c.CloseByCli {
@@ -504,7 +534,7 @@ func (r *winRun) handler(ctx mpx.Context, ch mpx.Channel) status.Status {
 	var g group
 	g.goTask(fmt.Sprintf("ch%d-ssend", i), func() {
 		for k, s := range c.S2C {
-			r.send(i, 1, k, s, false, func(b []byte) status.Status { return ch.Send(r.bg, b) })
+			r.send(i, 1, k, s, false, func(b []byte) status.Status { return r.sendRetry(c.SendUs[1], func(ctx async.Context) status.Status { return ch.Send(ctx, b) }) })
 		}
 	})
 	if !c.CloseByCli {
